@@ -366,7 +366,7 @@ def purge_sample(facts):
         walk(L.get("c") or {}, lambda x: refs.append(x.get("d")) if x.get("k") == "Ref" else None)
         active = []
         walk(L.get("b") or {}, lambda x: active.append(x) if x.get("k") == "Call" and x.get("cname") == "is_active" else None)
-        if cnt["d"] in refs and active:
+        if cnt["d"] in refs:
             out.append(ob("fi.sample", key, L.get("loc", fn["pat"]), "discharged", "the sampling loop runs until `%s` samples of active cells are taken" % cnt["n"], fn["qname"]))
         else:
             out.append(ob("fi.sample", key, L.get("loc", fn["pat"]), "violated", "the sampling loop is bounded by `%s`, which does not read the sample counter `%s`: it scans a fixed number of table cells instead of collecting that many active counters, so the purge amount is the median of whatever sits in the low part of the table (the error can exceed epsilon * N)" % (txt(L.get("c")), cnt["n"]), fn["qname"]))
